@@ -1077,6 +1077,57 @@ static std::string first_lib_frame(const std::string& txt) {
     return first.empty() ? "?" : first;
 }
 
+//first dsplib frame of a valgrind report ("==pid==    at 0x...: fn(args) (file:line)")
+static std::string vg_first_lib_frame(const std::string& txt) {
+    std::istringstream is(txt);
+    std::string line;
+    std::string first;
+    while (std::getline(is, line)) {
+        auto p = line.find(" at 0x");
+        if (p == std::string::npos) {
+            p = line.find(" by 0x");
+        }
+        if (p == std::string::npos) {
+            if (!first.empty() && line.find_first_not_of("=0123456789 ") == std::string::npos) {
+                break;   //end of the first stack
+            }
+            continue;
+        }
+        const auto c = line.find(": ", p);
+        if (c == std::string::npos) {
+            continue;
+        }
+        std::string fn = line.substr(c + 2);
+        const auto par = fn.find('(');
+        if (par != std::string::npos) {
+            fn = fn.substr(0, par);
+        }
+        std::string out;
+        int depth = 0;
+        for (char ch : fn) {
+            if (ch == '<') {
+                ++depth;
+            } else if (ch == '>') {
+                --depth;
+            } else if (depth == 0) {
+                out += ch;
+            }
+        }
+        while (!out.empty() && out.back() == ' ') {
+            out.pop_back();
+        }
+        if (first.empty()) {
+            first = out;
+        }
+        if (out.find("dsplib::") != std::string::npos) {
+            return out;
+        }
+    }
+    return first.empty() ? "?" : first;
+}
+
+static bool g_memcheck = false;
+
 struct Outcome5
 {
     Res res;
@@ -1124,7 +1175,7 @@ static Outcome5 run_child(const std::function<void()>& body, const std::string& 
         }
         struct timespec t1;
         clock_gettime(CLOCK_MONOTONIC, &t1);
-        if ((t1.tv_sec - t0.tv_sec) > watchdog_s) {
+        if ((t1.tv_sec - t0.tv_sec) > watchdog_s * (g_memcheck ? 20 : 1)) {
             kill(pid, SIGKILL);
             waitpid(pid, &status, 0);
             hang = true;
@@ -1139,8 +1190,35 @@ static Outcome5 run_child(const std::function<void()>& body, const std::string& 
     const std::string asanlog = vh::g.out + ".asan." + std::to_string(pid);
     std::string txt = slurp(asanlog);
     unlink(asanlog.c_str());
+    std::string vg;
+    if (g_memcheck) {
+        const std::string vglog = vh::g.out + ".vg." + std::to_string(pid);
+        vg = slurp(vglog);
+        unlink(vglog.c_str());
+    }
     if (hang) {
         return {Res::Hang, "hang", ""};
+    }
+    if (!vg.empty()) {
+        if (vg.find("cannot throw exceptions") != std::string::npos) {
+            //valgrind's operator new aborts instead of throwing std::bad_alloc: equivalent to the allowed exception outcome
+            return {Res::Threw, "bad_alloc(valgrind-intercepted)", ""};
+        }
+        static const char* const KINDS[][2] = {{"Invalid read of size", "invalid-read"},
+                                               {"Invalid write of size", "invalid-write"},
+                                               {"Conditional jump or move depends on uninitialised", "uninit-branch"},
+                                               {"Use of uninitialised value", "uninit-use"},
+                                               {"uninitialised byte", "uninit-syscall"},
+                                               {"Invalid free", "bad-free"},
+                                               {"Mismatched free", "bad-free"},
+                                               {"Source and destination overlap", "overlap-memcpy"},
+                                               {"Jump to the invalid address", "bad-jump"}};
+        for (const auto& k : KINDS) {
+            const auto p = vg.find(k[0]);
+            if (p != std::string::npos) {
+                return {Res::BadOutcome, std::string("memcheck:") + k[1] + "/" + vg_first_lib_frame(vg.substr(p)), vg.substr(0, 2500)};
+            }
+        }
     }
     if (WIFEXITED(status)) {
         const int c = WEXITSTATUS(status);
@@ -1228,9 +1306,11 @@ int main(int argc, char** argv) {
     vh::init(argc, argv, "C05");
     register_templates();
     const bool thorough = vh::g.thorough();
+    //under valgrind memcheck (a second opinion on the -O2 build) the same case generator runs a smaller sample
+    g_memcheck = vh::opt("memcheck", "0") == "1";
     const std::string errfile = (vh::g.out.empty() ? std::string("/dev/null") : vh::g.out + ".childerr");
     uint64_t idx = 0;
-    const uint64_t cap = thorough ? 20000 : 400;
+    const uint64_t cap = g_memcheck ? (thorough ? 1500 : 40) : (thorough ? 20000 : 400);
     uint64_t total_variants = 0;
     for (const auto& t : g_tmpl) {
         total_variants += t.total;
@@ -1257,7 +1337,7 @@ int main(int argc, char** argv) {
     vh::obs_max("total_variants_defined", double(total_variants));
 
     //random multi-call programs: several templates in one process (shared thread-local caches and generator state)
-    const int nprog = thorough ? 100000 : 1500;
+    const int nprog = g_memcheck ? (thorough ? 8000 : 100) : (thorough ? 100000 : 1500);
     for (int p = 0; p < nprog; ++p) {
         if (!vh::mine(idx++)) {
             continue;
